@@ -285,7 +285,10 @@ func PolygonProtoToS2Polygon(polygon *pb.PolygonProto) *s2.Polygon {
 			s2loops = append(s2loops, s2loop)
 		}
 	}
-	return s2.PolygonFromLoops(s2loops)
+	// NewPolygonProto writes holes clockwise, the opposite orientation
+	// to shells, so the loops need to be read as oriented for holes not
+	// to become the complement of the area they enclose.
+	return s2.PolygonFromOrientedLoops(s2loops)
 }
 
 func MultiPolygonProtoToS2MultiPolygon(polygons *pb.MultiPolygonProto) geometry.MultiPolygon {
